@@ -152,6 +152,8 @@ class Database:
             return self.delete_enum(obj)
         elif isinstance(obj, TableGroup):
             return self.delete_table_group(obj)
+        elif isinstance(obj, StickyNote):
+            return self.delete_sticky_note(obj)
         elif isinstance(obj, Project):
             if self.project is not None and obj != self.project:
                 raise DatabaseValidationError(f'{obj} is not in the database.')
@@ -192,6 +194,15 @@ class Database:
         except ValueError:
             raise DatabaseValidationError(f'{obj} is not in the database.')
         result = self.table_groups.pop(index)
+        self._unset_database(result)
+        return result
+
+    def delete_sticky_note(self, obj: StickyNote) -> StickyNote:
+        try:
+            index = self.sticky_notes.index(obj)
+        except ValueError:
+            raise DatabaseValidationError(f'{obj} is not in the database.')
+        result = self.sticky_notes.pop(index)
         self._unset_database(result)
         return result
 
